@@ -70,8 +70,8 @@ def coerceScalar : DType → Value → Value
   | .f64, .i64 n => .f64 (intToF64Bits n)
   | .str, .str s => .str s
   | .bool, .bool b => .bool b
-  | .ts, .ts n => .i64 n          -- `DataType::Timestamp.to_arrow() = Int64`: comes back as Int64
-  | .ts, .i64 n => .i64 n         -- `as_timestamp` accepts Int64
+  | .ts, .ts n => .ts n           -- arrow `Timestamp(Millisecond)` column, read back as `Timestamp`
+  | .ts, .i64 n => .ts n          -- `as_timestamp` accepts Int64
   | _, _ => .null
 
 def chunks {α} (dim : Nat) : Nat → List α → List (List α)
@@ -90,11 +90,15 @@ def vec8Cells (dim : Nat) : Value → List Int
   | _ => List.replicate dim 0
 
 def vecColumn (dim : Nat) (col : List Value) : Option (List Value) :=
+  -- dimension 0 uses the variable-length `LargeList` encoding: vectors of any length are kept, a
+  -- non-vector cell becomes the empty vector (offset unchanged, no validity buffer)
+  if dim == 0 then some (col.map (fun v => Value.vec (vecCells 0 v))) else
   let flat : List Nat := (col.map (vecCells dim)).flatten
   let len := if dim == 0 then 0 else flat.length / dim
   if len == col.length then some ((chunks dim len flat).map Value.vec) else none
 
 def vec8Column (dim : Nat) (col : List Value) : Option (List Value) :=
+  if dim == 0 then some (col.map (fun v => Value.vec8 (vec8Cells 0 v))) else
   let flat : List Int := (col.map (vec8Cells dim)).flatten
   let len := if dim == 0 then 0 else flat.length / dim
   if len == col.length then some ((chunks dim len flat).map Value.vec8) else none
@@ -102,7 +106,7 @@ def vec8Column (dim : Nat) (col : List Value) : Option (List Value) :=
 /-- one column, written and read back; `none` = the batch cannot be written (`Arrow` error). -/
 def column (ty : DType) (col : List Value) : Option (List Value) :=
   match ty with
-  | .null => none             -- schema says arrow `Null`, the array built is `Int32Array`: `try_new` fails
+  | .null => some (col.map (fun _ => Value.null))   -- `NullArray`: every cell reads back as `Null`
   | .vec d => vecColumn d col
   | .vec8 d => vec8Column d col
   | t => some (col.map (coerceScalar t))
@@ -135,7 +139,7 @@ def errArrow : String := "arrow"
 /-- the tuples of a batch after `write_updates_parquet` ∘ `read_updates_parquet`.
     * empty buffer: nothing is written (`mod.rs:697`);
     * a tuple whose arity differs from the first one: `SchemaMismatch` (`arrow_convert.rs:55`);
-    * zero columns: `RecordBatch::try_new` has no row count → error;
+    * zero columns: the row count is stated explicitly, the rows come back as empty tuples;
     * otherwise column by column. -/
 def tuplesBack (rows : List Tuple) : Except String (List Tuple) :=
   match rows with
@@ -143,7 +147,6 @@ def tuplesBack (rows : List Tuple) : Except String (List Tuple) :=
   | first :: _ =>
     let schema := inferSchema first
     if !(rows.all (fun r => r.length == schema.length)) then .error errArity
-    else if schema.isEmpty then .error errArrow
     else match columnsBack 0 schema rows with
       | none => .error errArrow
       | some cols => .ok (rowsOf rows.length 0 cols)
